@@ -138,7 +138,10 @@ Definition merge (a b : seq) : seq :=
         (s_ksigs a ++ s_ksigs b) (s_texts a ++ s_texts b) (s_ccs a ++ s_ccs b)
         (s_bends a ++ s_bends b) (s_sects a ++ s_sects b)
         (merge_z (s_total a) (s_total b)) (merge_z (s_qsteps a) (s_qsteps b))
-        (merge_z (s_spq a) (s_spq b)) (merge_z (s_sps a) (s_sps b))
+        (* quantization_info is a oneof {steps_per_quarter, steps_per_second}: merging a message
+           that has one of them set replaces the whole oneof *)
+        (if negb (s_spq b =? 0) then s_spq b else if negb (s_sps b =? 0) then 0 else s_spq a)
+        (if negb (s_spq b =? 0) then 0 else if negb (s_sps b =? 0) then s_sps b else s_sps a)
         (merge_z (fst (s_sub a)) (fst (s_sub b)), merge_z (snd (s_sub a)) (snd (s_sub b)))
         (merge_z (s_tpq a) (s_tpq b)) (merge_z (s_rest a) (s_rest b)).
 
